@@ -8,7 +8,14 @@ for f in sys.argv[2:]:
         c = l.rstrip('\n').split('\t')
         if len(c) >= 6: res[(c[0], c[1])] = c
 HIST = {
- ('seed5','C07'): 'missed at first (needs an explicit nodelist in another order than G.nodes()): the node-level models now get a rotated, reversed nodelist; caught since',
+ ('seed6','C02'): 'the check crashed at first (the trace oracle indexed a shorter candidate list): an oracle that cannot follow the trace is now a broken correspondence on that input; the run goes on and reports the missing row with a replay',
+ ('seed6','C06'): 'missed at first (needs initial_infecteds as a numpy array or empty): the ODE initial sets are now handed over as list / tuple / set / ndarray / dict keys; caught since',
+ ('seed6','C14'): 'caught, then missed after an unrelated change of the RNG stream, i.e. by luck: the ODE half now runs twice as many cases, two thirds with explicit initial sets; caught under seeds 0-3',
+ ('seed6','C20'): 'missed at first (needs the same graph object measured twice with an edge moved in between): same-object rewiring between calls added; caught since',
+ ('seed7','C06'): 'missed at first (needs explicit initial sets and a susceptible node of degree 0, generated in about 1% of the cases): a third of the ODE graphs now have a forced isolated node; caught since',
+ ('seed7','C08'): 'missed at first (needs tmin != 0 in the tau = 0 / gamma = 0 identities): they now run at tmin in {0, 2.5, -1.5}; caught since',
+ ('seed7','C20'): 'missed at first (needs the caller to refill the dict a PGF closure was built from): closures are now re-evaluated after a refill; caught since',
+ ('seed5','C07'): 'missed at first (needs an explicit nodelist in another order than G.nodes()): the node-level models now always get a rotated, reversed nodelist (a random choice that included the default order was caught under one RNG seed only); caught since under seeds 0-3',
  ('seed5','C08'): 'missed at first (needs phiS0 = 0 passed explicitly): explicit zero phiS0 / phiR0 cases added; caught since',
  ('seed5','C10'): 'caught only as a broken correspondence at first (no-failing-input-found): node subsets are now handed to summary() as list / tuple / iterator / generator / dict keys and the oracle shows the dropped node',
  ('seed5','C14'): 'missed at first (needs a same-instant tie): tie-rich integer rule tables for fast_nonMarkov_SIS added after 3600 such cases agreed across presentations on the unchanged code; caught since (also by C13 all along)',
